@@ -133,21 +133,43 @@ fn run_builder(stream: &[u8], cuts: &[usize], cov: &mut BTreeSet<(u8, u8)>) -> R
     Ok(out)
 }
 
-fn connected_server(ver: Ver) -> ConnBox<u16> {
+/// a connected server; `own_mps`: the Maximum Packet Size it announced in its CONNACK (v5.0) - the size test of a
+/// received frame must not depend on how the frame was cut into receive buffers either
+#[derive(Clone, Copy, PartialEq)]
+struct Srv {
+    ver: Ver,
+    own_mps: Option<u32>,
+}
+impl std::fmt::Debug for Srv {
+    fn fmt(&self, f: &mut std::fmt::Formatter<'_>) -> std::fmt::Result {
+        match self.own_mps {
+            Some(l) => write!(f, "{:?}(own limit {l})", self.ver),
+            None => write!(f, "{:?}", self.ver),
+        }
+    }
+}
+const SERVERS: [Srv; 3] = [Srv { ver: Ver::V4, own_mps: None }, Srv { ver: Ver::V5, own_mps: None }, Srv { ver: Ver::V5, own_mps: Some(6) }];
+
+fn connected_server(srv: Srv) -> ConnBox<u16> {
+    let ver = srv.ver;
     let mut c = ConnBox::<u16>::new(RoleK::Server, Some(ver));
     let connect = rc::encode(
         &AP::Connect { ver, clean: true, keep_alive: 1, client_id: b"c".to_vec(), will: None, user: None, pass: None, props: vec![] }, // keep alive in force: timer events are part of the compared sequences
         2,
     );
     let (_l, _n) = c.recv_all(&connect);
-    let connack = crate::bridge::build::<u16>(&AP::Connack { ver, sp: false, code: 0, props: vec![] }).ok().expect("connack");
+    let props = match srv.own_mps {
+        Some(l) => vec![rc::Prop { id: 0x27, val: rc::PVal::U32(l) }],
+        None => vec![],
+    };
+    let connack = crate::bridge::build::<u16>(&AP::Connack { ver, sp: false, code: 0, props }).ok().expect("connack");
     let _ = c.send(connack);
     c
 }
 
 /// Feed a stream to a connected server in chunks. Returns per-call event lists (until close).
-fn run_conn(ver: Ver, stream: &[u8], cuts: &[usize]) -> Vec<Vec<Ev>> {
-    let mut c = connected_server(ver);
+fn run_conn(srv: Srv, stream: &[u8], cuts: &[usize]) -> Vec<Vec<Ev>> {
+    let mut c = connected_server(srv);
     let mut lists = vec![];
     let mut start = 0usize;
     let mut bounds: Vec<usize> = cuts.to_vec();
@@ -264,8 +286,8 @@ pub fn run(rep: &mut Report) {
             history: vec![json!({"frames": names, "stream_hex": hex_trunc(&stream, 64), "cuts": cuts})],
         };
         let conn_streams = stream.len() <= 40;
-        let base_conn: Vec<(Ver, Result<Vec<Vec<Ev>>, String>)> = if conn_streams {
-            [Ver::V4, Ver::V5].iter().map(|v| (*v, guarded(|| run_conn(*v, &stream, &frame_cuts)))).collect()
+        let base_conn: Vec<(Srv, Result<Vec<Vec<Ev>>, String>)> = if conn_streams {
+            SERVERS.iter().map(|v| (*v, guarded(|| run_conn(*v, &stream, &frame_cuts)))).collect()
         } else {
             vec![]
         };
@@ -373,7 +395,7 @@ pub fn replay(v: &serde_json::Value) -> Result<Vec<String>, String> {
         Ok(r) => log.push(format!("builder: {r:?}; reference {:?}", reference(&stream))),
         Err(m) => log.push(format!("PANIC: {m}")),
     }
-    for ver in [Ver::V4, Ver::V5] {
+    for ver in SERVERS {
         match guarded(|| run_conn(ver, &stream, &cuts)) {
             Ok(ls) => {
                 for l in ls {
